@@ -133,7 +133,17 @@ fn gen_input(rng: &mut Rng, class: SizeClass, buf: usize, hints: &mut Vec<(usize
         let target = if rng.chance(1, 6) { k * buf + rng.urange(4, 6000) } else { (k * buf + 3).saturating_sub(rng.urange(0, 63)).max(1) };
         match rng.below(5) {
             0 => {
-                hints.push((0, ROp::Str));
+                // one dense run of non-whitespace bytes: read as one string, or as a vector of
+                // chars (all of it, or more than a buffer's worth of it, or just short of that)
+                hints.push((
+                    0,
+                    match rng.below(6) {
+                        0 => ROp::Vec(ElemTy::Char, target),
+                        1 => ROp::Vec(ElemTy::Char, (buf + rng.urange(0, 2)).min(target)),
+                        2 => ROp::Vec(ElemTy::Char, target.saturating_sub(rng.urange(1, 70)).max(1)),
+                        _ => ROp::Str,
+                    },
+                ));
                 out.extend((0..target).map(|i| STR_BYTES[(i * 7 + 3) % STR_BYTES.len()]));
                 // no separator: the next token may be glued, which simply lengthens this one
                 if rng.chance(1, 2) {
